@@ -27,7 +27,8 @@ EndpointsLarge ==
   EndpointsSmall \cup { V4(D(0), D(0), D(0), <<N0>>),   \* least version of all
                         V3(D(0), D(0), D(0)),
                         V4(D(2), D(0), D(0), <<N0>>) }
-Endpoints == IF Universe = "small" THEN EndpointsSmall ELSE EndpointsLarge
+EndpointsTiny == { V4(D(1), D(0), D(0), <<a_>>), V3(D(1), D(0), D(0)), V4(D(1), D(0), D(1), <<N0>>) }
+Endpoints == IF Universe = "small" THEN EndpointsSmall ELSE IF Universe = "tiny" THEN EndpointsTiny ELSE EndpointsLarge
 
 Bounds == {Unb} \cup {Inc(v) : v \in Endpoints} \cup {Exc(v) : v \in Endpoints}
 Ivs == {iv \in {Iv(lo, up) : lo \in Bounds, up \in Bounds} : ValidIv(iv)}
